@@ -92,6 +92,7 @@ type tableWorld struct {
 	anyInFlight                          int
 	unit                                 int64
 	alignWake                            chan struct{}
+	alignWake2                           chan struct{}
 	rogueWake                            chan struct{}
 	lastRogueKey                         int64
 }
@@ -190,7 +191,7 @@ func (w *tableWorld) drawCfg() {
 		}
 		g.admin = true
 		g.slowSub = c.CfgBool("c07_slow_subscriber", 1, 2)
-		g.slowSubOneIn = 6
+		g.slowSubOneIn = 3
 	case f("C08", "C11"):
 		g.pauseClose = false
 		if f("C11") {
@@ -383,7 +384,9 @@ func (w *tableWorld) Run(c *Ctx) {
 		simrt.Go(0, "extender", w.extenderTask)
 	}
 	if g.admin {
-		simrt.Go(0, "aligned", w.alignedTask)
+		w.alignWake2 = make(chan struct{}, 1)
+		simrt.Go(0, "aligned", func() { w.alignedTask(w.alignWake, "admin.aligned") })
+		simrt.Go(0, "aligned2", func() { w.alignedTask(w.alignWake2, "admin.aligned2") })
 	}
 	// horizon
 	for c.NowMs() < g.horizonMs && !c.Stopped() {
@@ -434,6 +437,12 @@ func (w *tableWorld) hookCallbacks() {
 				select {
 				case w.alignWake <- struct{}{}:
 				default:
+				}
+				if w.alignWake2 != nil {
+					select {
+					case w.alignWake2 <- struct{}{}:
+					default:
+					}
 				}
 			}
 			if gs := snap.State.GameState; gs != nil && gs.UpdatedAt != w.lastRogueKey {
@@ -897,6 +906,7 @@ func (w *tableWorld) doReserve(who string, jp pt.JoinPlayer, rebuy bool) error {
 
 func (w *tableWorld) doJoin(who, id string) error {
 	err := w.eng.PlayerJoin(id)
+	w.mon.lastMemberOpMs = w.c.NowMs()
 	w.c.Logf("JOIN %s (%s) -> %v", id, who, err)
 	return err
 }
@@ -1243,14 +1253,17 @@ func (w *tableWorld) rogueTask() {
 // continue interval) and at the instant the open-game gate fires (that + open-game timeout, or the
 // last settlement-finish signal), so that the scheduler can interleave them with tableGameOpen /
 // continueGame statement by statement.
-func (w *tableWorld) alignedTask() {
+func (w *tableWorld) alignedTask(wake chan struct{}, stream string) {
 	c := w.c
 	g := w.cfg
-	st := c.St.Get("admin.aligned")
+	st := c.St.Get(stream)
 	next := 100
+	if stream != "admin.aligned" {
+		next = 200
+	}
 	for c.NowMs() < g.faultEndMs && !c.Stopped() {
 		select {
-		case <-w.alignWake:
+		case <-wake:
 		case <-time.After(3 * time.Second):
 			continue
 		}
@@ -1272,13 +1285,17 @@ func (w *tableWorld) alignedTask() {
 			ids = append(ids, p.PlayerID)
 		}
 		c.Fault("F5_aligned_intervention")
-		switch st.Pick(25, 25, 15, 15, 10, 10) {
+		closeW := 10
+		if w.focus("C07") {
+			closeW = 45
+		}
+		switch st.Pick(25, 25, 15, 15, closeW, 10) {
 		case 0:
 			if g.topups {
 				w.doRedeem(ids[st.Draw(len(ids))], int64(1+st.Draw(int(w.unit)*10+1)))
 			}
 		case 1:
-			if g.lateJoin && next < 106 {
+			if g.lateJoin && next%100 < 6 {
 				id := fmt.Sprintf("n%d", next)
 				next++
 				cl := w.newClient(id)
